@@ -163,6 +163,7 @@ func c01Check(c *C01Case, r *core.Rec) {
 		}
 	}
 	c01SignedZeros(c, r, u, twoU)
+	c01AdjacentFloats(c, r, u, twoU)
 	if n1+n2 <= 12 {
 		c01Aliased(x1a, x2a, r)
 	}
@@ -234,6 +235,55 @@ func c01SignedZeros(c *C01Case, r *core.Rec, u *ref.UNull, twoU int) {
 				continue
 			}
 			r.Fail("signed-zero-P-"+alt.String(), "x1=%v x2=%v alt=%v (zeros of both signs): P=%v, exact %v", x1, x2, alt, res.P, want)
+		}
+	}
+}
+
+// c01AdjacentFloats materialises the class with values one ulp apart (rank k is
+// the k-th float above 1, and again around 1e9): distinct values are distinct,
+// however close.
+func c01AdjacentFloats(c *C01Case, r *core.Rec, u *ref.UNull, twoU int) {
+	if len(c.T) > 40 {
+		return
+	}
+	for _, base := range []float64{1, 1e9, -3} {
+		vals := make([]float64, len(c.T))
+		v := base
+		for k := range vals {
+			vals[k] = v
+			v = math.Nextafter(v, math.Inf(1))
+		}
+		var x1, x2 []float64
+		for k, t := range c.T {
+			for i := 0; i < t; i++ {
+				if i < c.R[k] {
+					x1 = append(x1, vals[k])
+				} else {
+					x2 = append(x2, vals[k])
+				}
+			}
+		}
+		x1, x2 = riffle(x1), riffle(x2)
+		for _, alt := range c01Alts {
+			res, err := stats.MannWhitneyUTest(x1, x2, alt)
+			r.Trans(1)
+			if err != nil || res == nil {
+				r.Fail("adjacent-floats-error", "values one ulp apart from %v: unexpected error %v", base, err)
+				continue
+			}
+			if res.U*2 != float64(twoU) {
+				r.Fail("adjacent-floats-U", "tie vector %v allocation %v on values one ulp apart from %v: U=%v, pair count gives %v", c.T, c.R, base, res.U, float64(twoU)/2)
+				break
+			}
+			want := mwExactExpected(u, twoU, alt)
+			if r.Err("P-"+alt.String(), math.Abs(res.P-want), 1e-9) {
+				continue
+			}
+			if alt == stats.LocationDiffers && math.Abs(res.P-mwKnownTwoSided(u, twoU)) <= 1e-9 {
+				r.KnownHit("mw-two-sided-asym", "x1=%v x2=%v two-sided: P=%v, exact %v", x1, x2, res.P, want)
+				continue
+			}
+			r.Fail("adjacent-floats-P-"+alt.String(), "tie vector %v allocation %v on values one ulp apart from %v, alt=%v: P=%v, exact %v", c.T, c.R, base, alt, res.P, want)
 		}
 	}
 }
